@@ -28,13 +28,19 @@
         phases (`zx_diagram_dagger_generic`, by induction from `zx_dagger`);
       * for the executable model: `circuit2zx_sound` — the corrected `circuit2zx` of every well-typed
         circuit over the translated gate set (table, Rz/Rx/CRz/CRx/CU1 at every even integer phase index, kets
-        and bras ≤ 4 bits, normalised scalars) is a well-typed diagram denoting `k • ⟦c⟧` for ONE invertible,
-        hence non-zero, `k`; `circuit2zx_sound_asis_partial` the same for the table as it is on circuits
+        and bras ≤ 4 bits ANYWHERE in the circuit — a `Circ` is any well-typed list of layers, so states and
+        effects in the middle, to the left or right of rotated wires, are included —, normalised scalars, and
+        square-root scalars `sqrt(z)` — the subclass `gates.Sqrt` of `gates.Scalar`, translated to the scalar
+        box of its DATA — whose value is invertible in ℤ[ζ₈][1/2] or zero: `gate2zx_sound_sqrt`; `Circuit.cups`
+        / `caps` are `CX ≫ H ⊗ sqrt(2) ⊗ 1 ≫ Bra(0,0)` and its dagger: `cup`, `cap` below) is a well-typed
+        diagram denoting `k • ⟦c⟧` for ONE invertible, hence non-zero, `k`; `circuit2zx_sound_asis_partial` the same for the table as it is on circuits
         without CRz/CRx/CU1; `zx_diagram_dagger` for every well-typed diagram with normalised scalars.
   NOT PROVED (decided on every run by the oracle and exact correspondence)
       * kets / bras of more than 4 bits and odd phase indices inside whole circuits (the per-gate hypothesis
         `Gate.zxOK` is decidable: `circuit2zx_sound_of`); `gate2zx_sound` for the as-is `CRx`
-        symbolically (its image has no neat closed form; refuted at φ = 1/4).
+        symbolically (its image has no neat closed form; refuted at φ = 1/4); square-root scalars whose value
+        is a non-zero NON-unit of ℤ[ζ₈][1/2] (`sqrt(9)`, `sqrt(-3+4i)`): the whole-circuit theorem gets its
+        non-zero overall scalar from invertibility of the per-gate scalars.
 -/
 import Proofs.ZXTableFixed
 import Proofs.GatesComplex
@@ -43,6 +49,9 @@ import Proofs.ZXScalarValue
 
 namespace DV.C16
 open DV DV.Gates
+
+/-- The number 2 of ℤ[ζ₈][1/2] (the data of the `sqrt(2)` in `Circuit.cups`). -/
+def two : Cyc8 := ⟨2, 0, 0, 0, 0⟩
 
 /-! ### gate2zx is sound on the phase-free part of the table -/
 
@@ -230,6 +239,15 @@ theorem gate2zx_table_ok :
     (∀ p ∈ zxTable, p.1.zxOK p.2 (zxInv p.2) = true) ∧
     (∀ z : Cyc8, z.isNormal = true → (Gate.scalar z).zxOK 1 1 = true) := ⟨zxTable_ok, scalar_zxOK⟩
 
+/-- Square-root scalars (`gates.Sqrt`, recognised by `gate2zx` only because it SUBCLASSES `gates.Scalar`):
+    the image is the scalar box of the data `z = r²`, denoting `r • ⟦sqrt(z)⟧`; `k = r` is invertible for
+    `sqrt(2)` (cups and caps), and `sqrt(0)` is translated exactly. -/
+theorem gate2zx_sound_sqrt :
+    (∀ z r r' : Cyc8, z.isNormal = true → r.isNormal = true → r'.isNormal = true → r * r = z → r * r' = 1 →
+      (Gate.sqrt z r).zxOK r r' = true) ∧ (Gate.sqrt 0 0).zxOK 1 1 = true ∧
+    (Gate.sqrt two Cyc8.sqrt2).zxOK Cyc8.sqrt2 Cyc8.invSqrt2 = true :=
+  ⟨sqrt_zxOK, sqrt_zero_zxOK, sqrt_zxOK _ _ _ rfl rfl rfl (by decide) (by decide)⟩
+
 /-- … and Rz, Rx, CRz, CRx, CU1 at EVERY even integer phase index (`ζ⁸ = 1`). -/
 theorem gate2zx_every_phase_index (k : RotKind) (n : Int) (hk : k ≠ .Ry) (hn : n % 2 = 0) :
     ∃ κ, (Gate.rot k n).zxOK κ (zxInv κ) = true := rot_zxOK_all k n hk hn
@@ -283,8 +301,41 @@ example : ∀ x ∈ c1, x.2.1.inZXSet := by
   · exact .inl ⟨1, by simp [zxTable, zxTableA, zxNamed, named, zxScalarNamed]⟩
   · exact .inl ⟨Cyc8.invSqrt2, by simp [zxTable, zxTableB, ctrlRotKinds, evenPhases]⟩
   · exact .inr (.inl ⟨Cyc8.I, rfl, rfl⟩)
-  · exact .inr (.inr ⟨.Rx, -6, rfl, by decide, by decide⟩)
+  · exact .inr (.inr (.inl ⟨.Rx, -6, rfl, by decide, by decide⟩))
 example : (circuit2zx true c1).toOption.map List.length = some 9 := by decide
+/-- `Circuit.cups(qubit, qubit)` (circuit.py:554-565): `CX ≫ H ⊗ sqrt(2) ⊗ 1 ≫ Bra(0, 0)` meets the hypotheses
+    — it contains the square-root scalar; its dagger `Circuit.caps` too. -/
+def cup : Circ :=
+  [(0, .ctrl (.q gX), 0), (0, .q gH, 1), (1, .sqrt two Cyc8.sqrt2, 1), (0, .bra [false, false], 0)]
+def cap : Circ :=
+  [(0, .ket [false, false], 0), (1, .sqrt two Cyc8.sqrt2, 1), (0, .q gH, 1), (0, .ctrl (.q gX), 0)]
+theorem sqrt2_inZXSet : (Gate.sqrt two Cyc8.sqrt2).inZXSet :=
+  .inr (.inr (.inr (.inl ⟨two, Cyc8.sqrt2, Cyc8.invSqrt2, rfl, rfl, rfl, rfl, by decide, by decide⟩)))
+example : Circ.codFrom 2 cup = some 0 ∧ Circ.codFrom 0 cap = some 2 := by decide
+example : ∀ x ∈ cup ++ cap, x.2.1.inZXSet := by
+  intro x hx
+  simp only [cup, cap, List.cons_append, List.nil_append, List.mem_cons, List.not_mem_nil, or_false] at hx
+  rcases hx with rfl | rfl | rfl | rfl | rfl | rfl | rfl | rfl
+  · exact .inl ⟨Cyc8.invSqrt2, by simp [zxTable, zxTableA, zxNamed, named, zxScalarNamed]⟩
+  · exact .inl ⟨1, by simp [zxTable, zxTableA, zxNamed, named, zxScalarNamed]⟩
+  · exact sqrt2_inZXSet
+  · exact .inl ⟨1, by simp [zxTable, zxTableC, bitstringsUpTo4, bitstringsUpTo3, bits]⟩
+  · exact .inl ⟨1, by simp [zxTable, zxTableC, bitstringsUpTo4, bitstringsUpTo3, bits]⟩
+  · exact sqrt2_inZXSet
+  · exact .inl ⟨1, by simp [zxTable, zxTableA, zxNamed, named, zxScalarNamed]⟩
+  · exact .inl ⟨Cyc8.invSqrt2, by simp [zxTable, zxTableA, zxNamed, named, zxScalarNamed]⟩
+example : circuit2zx true cup = .ok [(.z 1 2 0, 0), (.x 2 1 0, 1), (.h, 0), (.scalar two, 1),
+    (.x 1 0 0, 0), (.x 1 0 0, 0), (.scalar Cyc8.half, 0)] := by decide
+/-- A post-selection in the MIDDLE of a circuit, to the left of rotated wires:
+    `1 ⊗ Rz(1/4) ⊗ 1 ≫ Bra(0) ⊗ 1 ⊗ 1 ≫ 1 ⊗ Rz(1/2)` — after the bra the second rotation sits on the wire that
+    was the THIRD one; the translation keeps the two spiders on their own wires (offsets 1 and 1, with the
+    effect in between), and the circuit meets the hypotheses of `circuit2zx_sound`. -/
+def midBra : Circ := [(1, .rot .Rz 2, 1), (0, .bra [false], 2), (1, .rot .Rz 4, 0)]
+example : Circ.codFrom 3 midBra = some 2 := by decide
+example : circuit2zx true midBra =
+    .ok [(.z 1 1 2, 1), (.x 1 0 0, 0), (.scalar Cyc8.invSqrt2, 0), (.z 1 1 4, 1)] := by decide
+example : ZXDiag.eval 3 [(.z 1 1 2, 1), (.x 1 0 0, 0), (.scalar Cyc8.invSqrt2, 0), (.z 1 1 4, 1)] ≠
+    ZXDiag.eval 3 [(.z 1 1 6, 1), (.x 1 0 0, 0), (.scalar Cyc8.invSqrt2, 0)] := by decide
 example : spiderVal (1 / 2) = nuC 1 ∧ nuC 1 ≠ 0 := ⟨by simpa using spiderVal_half 1, nuC_ne_zero 1⟩
 
 end DV.C16
